@@ -230,14 +230,16 @@ func famSourceFunctionNames(r *Run) {
 	}
 	seen := map[string]bool{}
 	d := map[string]interface{}{"o": map[string]interface{}{"only": 1.0}, "rows": []interface{}{[]interface{}{"a", 1.0}, []interface{}{"b"}}, "l": []interface{}{1.0, 2.0}, "s": "x", "n": 1.0,
-		"pairs": []interface{}{[]interface{}{"a", 1.0}, []interface{}{"b", 2.0}}, "e": []interface{}{}, "ee": []interface{}{[]interface{}{}}}
+		"pairs": []interface{}{[]interface{}{"a", 1.0}, []interface{}{"b", 2.0}}, "e": []interface{}{}, "ee": []interface{}{[]interface{}{}},
+		"objs": []interface{}{map[string]interface{}{"k": "a"}, map[string]interface{}{"k": 1.0}}, "objs2": []interface{}{map[string]interface{}{"k": "a"}, map[string]interface{}{"k": "b"}, map[string]interface{}{"k": "a"}},
+		"objs3": []interface{}{map[string]interface{}{"k": "a"}, map[string]interface{}{}}}
 	for _, m := range funcNameRe.FindAllStringSubmatch(string(src), -1) {
 		name := m[1]
 		if known[name] || seen[name] {
 			continue
 		}
 		seen[name] = true
-		for _, args := range []string{"", "@", "o", "rows", "l", "s", "n", "pairs", "e", "ee", "`[[]]`", "`[[\"a\"]]`", "[keys(o)]", "rows[*][:1]", "o, o", "l, &@", "&@, l", "s, s", "l, `1`", "o, l, s", "`null`", "&n"} {
+		for _, args := range []string{"", "@", "o", "rows", "l", "s", "n", "pairs", "e", "ee", "`[[]]`", "`[[\"a\"]]`", "[keys(o)]", "rows[*][:1]", "o, o", "l, &@", "&@, l", "s, s", "l, `1`", "o, l, s", "`null`", "&n", "objs, &k", "objs2, &k", "objs3, &k", "&k, objs", "objs2, &@", "pairs, &@[0]", "l, &to_string(@)", "s, &@", "objs2, &k, &k", "objs"} {
 			e := name + "(" + args + ")"
 			r.mark("source-function-names", e, d)
 			o := observeSearch(e, d)
